@@ -73,7 +73,20 @@ impl<V> BTreeMap<u64, V> {
     { unimplemented!() }
 }
 pub struct SessionPoolConfig { pub check_interval: Duration, pub idle_timeout: Duration, pub min_idle_sessions: usize }
-pub struct PoolState { pub idle_sessions: BTreeMap<u64, PooledSession>, pub fx: Ghost<Seq<PEffect>> }
+// dials = number of TLS connections this client has dialled so far (ghost; only Client::create_new_session advances it)
+pub struct PoolState { pub idle_sessions: BTreeMap<u64, PooledSession>, pub fx: Ghost<Seq<PEffect>>, pub dials: Ghost<nat> }
+// the client as its own session-acquisition functions see it
+pub struct Client { pub session_pool: Arc<SessionPool> }
+impl Client {
+    // dial + TLS + authentication + start of the session (client.rs create_new_session; its construction block is under contract in
+    // group `clientsess`): one more connection; the new, open session sits in the idle map under its own sequence number
+    #[verifier::external_body]
+    pub fn create_new_session(&self, st: &mut PoolState) -> (r: Result<Arc<Session>>)
+        ensures final(st).dials@ == old(st).dials@ + 1, final(st).fx@ == old(st).fx@,
+            r is Ok ==> !r->Ok_0.closed && final(st).idle_sessions@.dom() == old(st).idle_sessions@.dom().insert(r->Ok_0.seqno) && final(st).idle_sessions@[r->Ok_0.seqno].session == r->Ok_0,
+            r is Err ==> final(st).idle_sessions@ == old(st).idle_sessions@
+    { unimplemented!() }
+}
 pub struct SessionPool { pub config: SessionPoolConfig }
 pub open spec fn closes(fx: Seq<PEffect>) -> Set<int> decreases fx.len()
 { if fx.len() == 0 { Set::empty() } else { let r = closes(fx.drop_last()); match fx.last() { PEffect::Close { id } => r.insert(id) } } }
